@@ -219,7 +219,14 @@ def r3_annotation(ctx):
             names.index(ap) < names.index(un) < names.index(se)
         # classification atoms must be evaluated in the epoch between apply and undo
         atoms = [(a, v) for a, v in o.conds if a[0] == 'call' and a[1] in (IN_CHECK, IN_MATE)]
-        ep_ok = all(isinstance(a[3], tuple) and a[3][1] == 1 for a, v in atoms)
+        def epoch_at(idx):
+            return sum(1 for e in o.events[:idx] if (e[0] == 'call' and isinstance(e[3], int)) or e[0] == 'write')
+        if names.count(ap) == 1 and names.count(un) == 1:
+            e_after_apply = epoch_at(o.events.index([e for e in ev if e[1] == ap][0]) + 1)
+            e_before_undo = epoch_at(o.events.index([e for e in ev if e[1] == un][0]))
+        else:
+            e_after_apply, e_before_undo = 1, 0
+        ep_ok = all(isinstance(a[3], tuple) and e_after_apply <= a[3][1] <= e_before_undo for a, v in atoms)
         players = {a[2][2] for a, v in atoms}
         boards = {a[2][0] for a, v in atoms}
         eff = [e for e in ev if e[1] == se][0][2][1] if names.count(se) == 1 else None
